@@ -304,6 +304,9 @@ class ExprParser(RecursiveDescent):
             params.append(node)
             if not self.have("COMMA"):
                 break
+            if self.token.typ == "RPAREN":
+                self.error_msg("Expected an argument after ',', found {}",
+                               self.token.typ)
         self.mustbe("RPAREN")
         self.exit("argument_list", str(params))
         return params
@@ -404,6 +407,9 @@ class Parser(ExprParser):
             if self.have("COMMA"):
                 if self.have("VARARG"):
                     raise NotImplementedError("varargs")
+                if self.token.typ == "RPAREN":
+                    self.error_msg("Expected a parameter after ',', found {}",
+                                   self.token.typ)
             else:
                 break
         self.mustbe("RPAREN")
@@ -713,7 +719,8 @@ class Parser(ExprParser):
         elif self.have("ID"):
             pass
         else:
-            value = None
+            self.error_msg("Expected a value after '=', found {}",
+                           self.token.typ)
         self.exit("initializer")
         return value
 
@@ -806,6 +813,10 @@ class Parser(ExprParser):
             node.parameters.append(TemplateParam(name))
             if not self.have("COMMA"):
                 break
+            if self.token.typ == "GT":
+                self.error_msg(
+                    "Expected a template parameter after ',', found {}",
+                    self.token.typ)
         self.mustbe("GT")
 
         if self.token.typ == "CLASS":
@@ -839,6 +850,10 @@ class Parser(ExprParser):
             lst.append(temp)
             if not self.have("COMMA"):
                 break
+            if self.token.typ == "GT":
+                self.error_msg(
+                    "Expected a template argument after ',', found {}",
+                    self.token.typ)
         self.mustbe("GT")
         return lst
 
